@@ -36,7 +36,8 @@ def load_known_findings():
             continue
         m = re.match(r"finding:\s+property=(\S+)\s+obligation=(\S+)\s+case=(\S+)\s+--\s+(.*)$", line)
         if m:
-            findings.append({"property": m.group(1), "obligation": m.group(2), "case": m.group(3), "text": m.group(4)})
+            for pid in m.group(1).split(","):
+                findings.append({"property": pid, "obligation": m.group(2), "case": m.group(3), "text": m.group(4)})
     return findings
 
 
